@@ -914,7 +914,7 @@ func ruleA3(w *world.World, r *report.RuleResult) {
 	m := 0
 	for _, c := range world.Calls(fn) {
 		f := c.Common().StaticCallee()
-		if f == nil || f.Name() != "Update" || world.ShortPkg(world.PkgOf(f)) != "internal/eviction" {
+		if f == nil || world.BaseName(f) != "Update" || world.ShortPkg(world.PkgOf(f)) != "internal/eviction" {
 			continue
 		}
 		facts := world.FactsAt(must, c, nil, nil)
@@ -1061,7 +1061,7 @@ func rulePD(w *world.World, r *report.RuleResult) {
 					if f := com.StaticCallee(); f != nil {
 						// method on a per-database element: cache[db].Delete / Flush
 						if len(com.Args) > 0 && f.Signature.Recv() != nil && world.ShortPkg(world.PkgOf(f)) == "internal/eviction" {
-							switch f.Name() {
+							switch world.BaseName(f) {
 							case "Delete", "Flush":
 								mark(com.Args[0])
 							}
@@ -1552,7 +1552,7 @@ func replaceWithoutSubtract(fn *ssa.Function, m *memFn, evs map[*ssa.Function]*m
 				return false
 			}
 			f := call.Call.StaticCallee()
-			return f != nil && f.Name() == "GetMem" && len(call.Call.Args) > 0 && fromStoreEntry(call.Call.Args[0])
+			return f != nil && world.BaseName(f) == "GetMem" && len(call.Call.Args) > 0 && fromStoreEntry(call.Call.Args[0])
 		}) == 1-si {
 			return ACC
 		}
@@ -1597,7 +1597,7 @@ func ruleKB(w *world.World, r *report.RuleResult) {
 		if m := evs[f]; m != nil && len(m.dels) > 0 {
 			return "removes store entries"
 		}
-		if f.Signature.Recv() != nil && f.Name() == "Delete" && strings.Contains(f.Signature.Recv().Type().String(), "internal/eviction.Cache") {
+		if f.Signature.Recv() != nil && world.BaseName(f) == "Delete" && strings.Contains(f.Signature.Recv().Type().String(), "internal/eviction.Cache") {
 			return "removes the key from an eviction cache"
 		}
 		if s := f.String(); s == "container/heap.Remove" || s == "container/heap.Pop" {
